@@ -79,6 +79,16 @@ mod routing_table;
 mod store;
 mod types;
 
+/// Verification hooks: re-exports of crate-private Kademlia items for the external harness.
+#[cfg(feature = "verif")]
+pub mod verif {
+    pub use super::{
+        record::{Key as StoreKey, ProviderRecord},
+        store::{MemoryStore, MemoryStoreConfig},
+        types::Distance,
+    };
+}
+
 mod schema {
     pub(super) mod kademlia {
         include!(concat!(env!("OUT_DIR"), "/kademlia.rs"));
